@@ -4,8 +4,8 @@
 (* the position it reported in the three renderings.                          *)
 EXTENDS TraceLib, FiniteSets
 
-CONSTANTS MaxDoc, KnownDevs
-VARIABLES l, doc, offset, line, phase
+CONSTANTS MaxDoc, KnownDevs, OffsetUnit
+VARIABLES l, doc, pos, offset, line, phase
 
 E == INSTANCE ErrorPos
 
@@ -26,7 +26,7 @@ Judge(e, i) ==
         [] OTHER -> TRUE
 
 Init == l = 1 /\ E!Init
-Step == /\ l <= Len(Rec) /\ Judge(Rec[l], l) /\ l' = l + 1 /\ UNCHANGED <<doc, offset, line, phase>>
-Spec == Init /\ [][Step]_<<l, doc, offset, line, phase>>
+Step == /\ l <= Len(Rec) /\ Judge(Rec[l], l) /\ l' = l + 1 /\ UNCHANGED <<doc, pos, offset, line, phase>>
+Spec == Init /\ [][Step]_<<l, doc, pos, offset, line, phase>>
 Accepted == AllConsumed
 =============================================================================
